@@ -308,8 +308,8 @@ def valSeg (k : V) : String := "[" ++ fmtKey k ++ "]"
 
 def runInt (op : Op) (min max : Option Int) (units : Option Units) (v : V) : Out V :=
   match op with
-  | .U => (intInputMapper units v).bind fun n => (checkInt min max n).bind fun _ => .ok (.int .int64 n)
-  | .C => (intInputMapper units v).bind fun n => (checkInt min max n).bind fun _ => done
+  | .U => (rewrapC (intInputMapper units v)).bind fun n => (checkInt min max n).bind fun _ => .ok (.int .int64 n)
+  | .C => (rewrapC (intInputMapper units v)).bind fun n => (checkInt min max n).bind fun _ => done
   | .V => (asInt v).bind fun n => (checkInt min max n).bind fun _ => done
   | .S => (asInt v).bind fun n => (checkInt min max n).bind fun _ => .ok (.int .int64 n)
 
@@ -329,14 +329,14 @@ def floatInputMapper (x : Ext) (units : Option Units) : V → Out Nat
 
 def runFloat (x : Ext) (op : Op) (min max : Option Nat) (units : Option Units) (v : V) : Out V :=
   match op with
-  | .U => (floatInputMapper x units v).bind fun b => (checkFloat min max b).bind fun _ => .ok (.float .f64 b)
-  | .C => (floatInputMapper x units v).bind fun b => (checkFloat min max b).bind fun _ => done
+  | .U => (rewrapC (floatInputMapper x units v)).bind fun b => (checkFloat min max b).bind fun _ => .ok (.float .f64 b)
+  | .C => (rewrapC (floatInputMapper x units v)).bind fun b => (checkFloat min max b).bind fun _ => done
   | .V => (asFloat v).bind fun b => (checkFloat min max b).bind fun _ => done
   | .S => (asFloat v).bind fun b => (checkFloat min max b).bind fun _ => .ok (.float .f64 b)
 
 def runStr (x : Ext) (op : Op) (min max : Option Int) (pat : Option String) (v : V) : Out V :=
   match op with
-  | .U => (stringInputMapper x v).bind fun s => (checkStr x min max pat s).bind fun _ => .ok (.str s)
+  | .U => (rewrapC (stringInputMapper x v)).bind fun s => (checkStr x min max pat s).bind fun _ => .ok (.str s)
   | .C =>
     match v with
     | .str s => (checkStr x min max pat s).bind fun _ => done
@@ -353,7 +353,7 @@ def runBool (op : Op) (v : V) : Out V :=
 
 def runPattern (x : Ext) (op : Op) (v : V) : Out V :=
   match op with
-  | .U => (stringInputMapper x v).bind fun s => if x.reCompiles s then .ok (.regex s) else .cerr
+  | .U => (rewrapC (stringInputMapper x v)).bind fun s => if x.reCompiles s then .ok (.regex s) else .cerr
   | .V | .C =>
     match v with
     | .regex _ => done
